@@ -1095,6 +1095,30 @@ func (c *Ctx) atoms(cond ssa.Value, pol bool, e *env) []Atom {
 			if rk, ok := r.(*ssa.Const); ok && rk.Value == nil && (op == "==" || op == "!=") {
 				return []Atom{{Kind: "nil", Subj: c.key(l, le), Pos: op == "==", Src: cond}}
 			}
+			// x == <constant boxed into an interface>, x an interface value: true exactly when x's dynamic type is
+			// the constant's type and the values are equal — the same facts as `v, ok := x.(T); ok && v == c`
+			if op == "==" {
+				if _, isIface := l.Type().Underlying().(*types.Interface); isIface {
+					var k *ssa.Const
+					if mi, ok := r.(*ssa.MakeInterface); ok {
+						k, _ = mi.X.(*ssa.Const)
+					} else if rc, ok := r.(*ssa.Const); ok {
+						if _, rIface := rc.Type().Underlying().(*types.Interface); !rIface {
+							k = rc
+						}
+					}
+					if k != nil {
+						if k.Value != nil {
+							lk, ts := c.key(l, le), typeStr(k.Type())
+							return []Atom{
+								{Kind: "cmp", Subj: lk, Op: op, Val: c.key(r, re), Src: cond, Neg: !pol},
+								{Kind: "type", Subj: lk, Val: ts, Pos: true, Src: cond, Args: []ssa.Value{l}},
+								{Kind: "cmp", Subj: lk + ".(" + ts + ")", Op: "==", Val: c.key(k, nil), Src: cond},
+							}
+						}
+					}
+				}
+			}
 			return []Atom{{Kind: "cmp", Subj: c.key(l, le), Op: op, Val: c.key(r, re), Src: cond, Neg: !pol}}
 		}
 	case *ssa.Extract:
